@@ -5,31 +5,49 @@ from decimal import Decimal
 from fractions import Fraction
 
 from common import Ctx, driver_batch, fmt, rel_close
+import uni_common as U
 
 PROPERTY = "C07"
-LEAN_MODULES = ["Proofs.C07"]
+LEAN_MODULES = ["Proofs.C07", "Proofs.C07.Round"]
 RULE = ("random (sqrt price, tick pair, decimals in {6,8,18}^2, offered amounts 0..1e12 tokens) with a boundary stream (price exactly on a "
-        "range bound, ranges touching MIN/MAX tick, equal ticks, reversed ticks, zero amounts); buckets = (regime below/inside/above/on-bound, "
-        "decimals pair, amount class, which side limits)")
+        "range bound, ranges touching MIN/MAX tick, the full range at every spacing, ranges and prices beyond |tick| = 2^19, equal ticks, reversed "
+        "ticks, zero amounts) and a magnitude stream (1e9..1e12 tokens of an 18-decimal token into 1..200-tick ranges, where liquidity has 36..50 "
+        "digits); sqrt prices of ticks come from a protocol reference, not from the code; a purity stream re-asks V3CoreLib the same "
+        "(range, price, liquidity) with every decimals pair, forwards and backwards, and repeats earlier questions at the end of the run; "
+        "buckets = (stream, regime below/inside/above/on-bound, decimals pair, amount class, tick band)")
 TRUSTED = ["theorems are stated for the exact rational semantics; the 35-digit Decimal rounding of get_amount0/1 is reproduced bit-exactly by the driver "
-           "and bounded by the 1e-30 tolerance the property names"]
+           "and bounded by the 1e-30 tolerance the property names",
+           "the protocol reference for the sqrt price of a tick (uni_common.ref_sqrt_ratio_at_tick) is a hand copy of TickMath.sol, self-checked against "
+           "the protocol's boundary values and C06's closeness bound on every single-bit tick"]
 ASSUMPTIONS = ["Decimal arithmetic = exact result rounded half-even to 35 digits"]
 
 MIN_TICK, MAX_TICK = -887272, 887272
 TOL = Fraction(1, 10 ** 30)
 
 
-def gen_case(rng, g):
+def gen_case(rng, g, stream="random"):
+    """`g` is the protocol reference (never the code under test)"""
     d0, d1 = rng.choice((6, 8, 18)), rng.choice((6, 8, 18))
     kind = rng.random()
-    if kind < 0.08:
+    if stream == "magnitude":
+        # huge amounts into narrow ranges anywhere in the tick range: liquidity of 36..50 digits, products far beyond 35 digits
+        d0, d1 = rng.choice(((18, 18), (18, 18), (18, 6), (6, 18), (18, 8)))
+        c = rng.randint(-600000, 600000)
+        w = rng.choice((1, 2, 10, 60, 200))
+        ta, tb = c - rng.randint(1, w), c + rng.randint(1, w)
+    elif kind < 0.06:
         ta, tb = MIN_TICK, rng.randint(MIN_TICK + 1, MAX_TICK)
-    elif kind < 0.16:
+    elif kind < 0.12:
         ta, tb = rng.randint(MIN_TICK, MAX_TICK - 1), MAX_TICK
-    elif kind < 0.2:
+    elif kind < 0.18:
+        # the full range as a pool of that spacing offers it, or a range hugging one end
+        sp = rng.choice((1, 10, 60, 200))
+        lo_end, hi_end = -(MAX_TICK // sp) * sp, (MAX_TICK // sp) * sp
+        ta, tb = rng.choice(((lo_end, hi_end), (lo_end, lo_end + sp * rng.randint(1, 500)), (hi_end - sp * rng.randint(1, 500), hi_end)))
+    elif kind < 0.22:
         ta = tb = rng.randint(MIN_TICK, MAX_TICK)
     else:
-        c = rng.randint(-400000, 400000)
+        c = rng.randint(-400000, 400000) if rng.random() < 0.7 else rng.randint(MIN_TICK, MAX_TICK)
         w = rng.choice((1, 10, 60, 200, 2000, 20000, 200000))
         ta, tb = max(MIN_TICK, c - rng.randint(1, w)), min(MAX_TICK, c + rng.randint(1, w))
     if rng.random() < 0.1:
@@ -56,6 +74,8 @@ def gen_case(rng, g):
 
     def amt():
         k = rng.random()
+        if stream == "magnitude":
+            return (Decimal(rng.randint(10 ** 9, 10 ** 12)) + Decimal(rng.randint(0, 10 ** 18)) / Decimal(10 ** 18) if k < 0.8 else Decimal(10 ** 12)), "huge"
         if k < 0.1:
             return Decimal(0), "zero"
         if k < 0.2:
@@ -67,28 +87,111 @@ def gen_case(rng, g):
         v = (m / Decimal(10 ** (len(str(m)) - 1))) * (Decimal(10) ** e)
         return min(v, Decimal(10 ** 12)), "mid"
     (a0, c0), (a1, c1) = amt(), amt()
-    return dict(s=s, ta=ta, tb=tb, d0=d0, d1=d1, a0=a0, a1=a1, reg=reg, c0=c0, c1=c1)
+    band = "far" if max(abs(ta), abs(tb)) >= 1 << 19 else "near"      # bit 19 of |tick| set: the last factor of the TickMath product
+    return dict(s=s, ta=ta, tb=tb, d0=d0, d1=d1, a0=a0, a1=a1, reg=reg, c0=c0, c1=c1, band=band, stream=stream)
+
+
+def closed_form(s, sa, sb, L, d0, d1):
+    """the closed-form Uniswap v3 amounts of liquidity L in [sa, sb] at sqrt price s (Q96 integers), in tokens"""
+    Q = 2 ** 96
+    if s <= sa:
+        c0f, c1f = Fraction(L * Q * (sb - sa), sa * sb), Fraction(0)
+    elif s < sb:
+        c0f, c1f = Fraction(L * Q * (sb - s), s * sb), Fraction(L * (s - sa), Q)
+    else:
+        c0f, c1f = Fraction(0), Fraction(L * (sb - sa), Q)
+    return c0f / 10 ** d0, c1f / 10 ** d1
+
+
+DEC_PAIRS = [(a, b) for a in (6, 8, 18) for b in (6, 8, 18)]
+
+
+def purity_stream(ctx, lm, core, pool_cls, tok_cls, rng, n):
+    """the functions are pure: the answer to a question does not depend on what was asked before.  One coordinate of a question is varied
+    with everything else fixed — the decimals pair over {6,8,18}^2 in a random order and then backwards, then the liquidity, then the price —
+    through V3CoreLib.get_token_amounts / close_position / new_position and liquitidy_math.get_amounts; all earlier questions are asked again,
+    last first, at the end of the run.  Every answer is held to the closed form."""
+    from demeter.uniswap._typing import PositionInfo
+    g = U.ref_sqrt_ratio_at_tick
+    asked = []
+
+    def ask(via, d0, d1, ta, tb, s, L, phase):
+        pool = pool_cls(tok_cls("A", d0), tok_cls("B", d1), 0.05, tok_cls("A", d0))
+        info = PositionInfo(lower_tick=ta, upper_tick=tb)
+        rep = {"kind": "purity", "via": via, "d0": d0, "d1": d1, "ta": ta, "tb": tb, "s": str(s), "L": str(L), "phase": phase,
+               "asked_before": [[q[0], q[1], q[2]] for q in asked[-12:]]}
+        try:
+            if via == "get_token_amounts":
+                got = core.V3CoreLib.get_token_amounts(pool, info, s, L)
+            elif via == "close_position":
+                got = core.V3CoreLib.close_position(pool, info, L, s)
+            else:
+                got = lm.get_amounts(s, ta, tb, L, d0, d1)
+        except Exception as e:  # noqa: BLE001
+            ctx.violate(f"purity.{via}.raises.{type(e).__name__}", f"{via} raised {type(e).__name__} for liquidity {L} in [{ta},{tb}] at {s}, decimals {d0},{d1}", rep)
+            return
+        e0, e1 = closed_form(s, g(ta), g(tb), L, d0, d1)
+        ctx.case(f"purity:{via}:{phase}:{d0},{d1}")
+        if not (rel_close(Fraction(got[0]), e0, TOL) and rel_close(Fraction(got[1]), e1, TOL)):
+            ctx.violate(f"purity.{via}.{phase}", f"{via}(decimals {d0},{d1}, range [{ta},{tb}], sqrt price {s}, liquidity {L}) = ({got[0]}, {got[1]}), closed form "
+                        f"({float(e0):.12g}, {float(e1):.12g}); asked {phase} (same range / price / liquidity asked before with other arguments)", rep)
+
+    for _ in range(n):
+        c = gen_case(rng, g)
+        ta, tb = sorted((c["ta"], c["tb"]))
+        if ta == tb:
+            continue
+        s = c["s"]
+        L = rng.randint(1, 10 ** rng.randint(3, 30))
+        order = DEC_PAIRS[:]
+        rng.shuffle(order)
+        via = rng.choice(("get_token_amounts", "close_position", "get_amounts"))
+        for d0, d1 in order:
+            ask(via, d0, d1, ta, tb, s, L, "decimals-sweep")
+        for d0, d1 in reversed(order):
+            ask(via, d0, d1, ta, tb, s, L, "decimals-sweep-back")
+        d0, d1 = order[0]
+        for L2 in (L * 10, L + 1, L):
+            ask(via, d0, d1, ta, tb, s, L2, "liquidity-sweep")
+        for s2 in (g(ta), g(tb), (g(ta) + g(tb)) // 2, s):
+            ask(via, d0, d1, ta, tb, s2, L, "price-sweep")
+        asked.append((via, order[0], order[-1], ta, tb, s, L))
+    for via, da, db, ta, tb, s, L in reversed(asked):
+        ask(via, db[0], db[1], ta, tb, s, L, "asked-again")
+        ask(via, da[0], da[1], ta, tb, s, L, "asked-again")
 
 
 def check_case(ctx, lm, core, pool_cls, tok_cls, c, reqs):
-    g = lm.get_sqrt_ratio_at_tick
+    g = U.ref_sqrt_ratio_at_tick          # the protocol's value, not the code's
     s, ta, tb, d0, d1, a0, a1 = c["s"], c["ta"], c["tb"], c["d0"], c["d1"], c["a0"], c["a1"]
     rep = {k: (fmt(v) if isinstance(v, Decimal) else v) for k, v in c.items()}
     rep["s"] = str(s)
-    key = f"{c['reg']}:{d0},{d1}:{c['c0']}/{c['c1']}"
+    key = f"{c.get('stream', 'random')}:{c['reg']}:{d0},{d1}:{c['c0']}/{c['c1']}:{c.get('band', '-')}"
     try:
         L = lm.get_liquidity(s, ta, tb, a0, a1, d0, d1)
         outcome = "ok"
-    except ZeroDivisionError:
-        L, outcome = None, "ZeroDivisionError"
+    except Exception as e:  # noqa: BLE001
+        L, outcome = None, type(e).__name__
     ctx.case(f"{key}:{outcome}", rep)
-    reqs.append((rep, "L", f"getLiquidity py {s} {ta} {tb} {fmt(a0)} {fmt(a1)} {d0} {d1}", str(L) if L is not None else "ERR ZeroDivisionError"))
+    reqs.append((rep, "L", f"getLiquidity py {s} {ta} {tb} {fmt(a0)} {fmt(a1)} {d0} {d1}", str(L) if L is not None else "ERR " + outcome))
     if L is None:
         if ta != tb:
-            ctx.violate("get_liquidity.raises", f"get_liquidity raised ZeroDivisionError on distinct ticks {ta},{tb}", rep)
+            ctx.violate(f"get_liquidity.raises.{outcome}", f"get_liquidity raised {outcome} on distinct ticks {ta},{tb}", rep)
         return
     sa, sb = sorted((g(ta), g(tb)))
-    used0, used1 = lm.get_amounts(s, ta, tb, L, d0, d1)
+    for t in (ta, tb):
+        try:
+            v = lm.get_sqrt_ratio_at_tick(t)
+        except Exception as e:  # noqa: BLE001
+            v = type(e).__name__
+        if v != g(t):
+            ctx.violate(f"bound-sqrt-price.{c.get('band', '-')}", f"the sqrt price of range bound {t} is {v}, the protocol's TickMath gives {g(t)}: amounts and liquidity "
+                        f"of [{ta},{tb}] are computed for another range", rep)
+    try:
+        used0, used1 = lm.get_amounts(s, ta, tb, L, d0, d1)
+    except Exception as e:  # noqa: BLE001
+        ctx.violate(f"get_amounts.raises.{type(e).__name__}", f"get_amounts raised {type(e).__name__} for liquidity {L} in [{ta},{tb}] at {s}", rep)
+        return
     reqs.append((rep, "A", f"getAmounts py {s} {ta} {tb} {L} {d0} {d1}", f"{fmt(Decimal(used0))} {fmt(Decimal(used1))}"))
     u0, u1 = Fraction(used0), Fraction(used1)
     f0, f1 = Fraction(a0), Fraction(a1)
@@ -122,39 +225,33 @@ def check_case(ctx, lm, core, pool_cls, tok_cls, c, reqs):
         if not (0 <= real - L <= slack):
             ctx.violate("maximal", f"liquidity {L} is not maximal: real-valued maximum {float(real):.6g}, allowed slack {float(slack):.6g}", rep)
         # --- closed form at 1e-30 relative
-        if s <= sa:
-            c0f, c1f = Fraction(L * Q * (sb - sa), sa * sb), Fraction(0)
-        elif s < sb:
-            c0f, c1f = Fraction(L * Q * (sb - s), s * sb), Fraction(L * (s - sa), Q)
-        else:
-            c0f, c1f = Fraction(0), Fraction(L * (sb - sa), Q)
-        c0f, c1f = c0f / 10 ** d0, c1f / 10 ** d1
+        c0f, c1f = closed_form(s, sa, sb, L, d0, d1)
         if not (rel_close(u0, c0f, TOL) and rel_close(u1, c1f, TOL)):
             ctx.violate("closed-form", f"amounts ({used0},{used1}) differ from the closed-form Uniswap v3 values by more than 1e-30 relative", rep)
         ctx.dev(u0, c0f)
         ctx.dev(u1, c1f)
-    # --- proportional to liquidity
-    k = 7
-    k0, k1 = lm.get_amounts(s, ta, tb, L * k, d0, d1)
-    if not (rel_close(Fraction(k0), u0 * k, TOL) and rel_close(Fraction(k1), u1 * k, TOL)):
-        ctx.violate("linear", f"amounts are not proportional to liquidity (x{k})", rep)
-    # --- monotone in price
-    s2 = s + max(1, s // 1000)
-    if s2 <= g(MAX_TICK):
-        m0, m1 = lm.get_amounts(s2, ta, tb, L, d0, d1)
-        if Fraction(m0) > u0 * (1 + TOL) or Fraction(m1) < u1 * (1 - TOL):
-            ctx.violate("monotone", f"raising the price from {s} to {s2} raised token0 or lowered token1", rep)
-    # --- new_position / close_position round trip
-    pool = pool_cls(tok_cls("A", d0), tok_cls("B", d1), 0.05, tok_cls("A", d0)) if d0 != d1 or True else None
     try:
+        # --- proportional to liquidity
+        k = 7
+        k0, k1 = lm.get_amounts(s, ta, tb, L * k, d0, d1)
+        if not (rel_close(Fraction(k0), u0 * k, TOL) and rel_close(Fraction(k1), u1 * k, TOL)):
+            ctx.violate("linear", f"amounts are not proportional to liquidity (x{k})", rep)
+        # --- monotone in price
+        s2 = s + max(1, s // 1000)
+        if s2 <= g(MAX_TICK):
+            m0, m1 = lm.get_amounts(s2, ta, tb, L, d0, d1)
+            if Fraction(m0) > u0 * (1 + TOL) or Fraction(m1) < u1 * (1 - TOL):
+                ctx.violate("monotone", f"raising the price from {s} to {s2} raised token0 or lowered token1", rep)
+        # --- new_position / close_position round trip
+        pool = pool_cls(tok_cls("A", d0), tok_cls("B", d1), 0.05, tok_cls("A", d0))
         p0, p1, pl, info = core.V3CoreLib.new_position(pool, a0, a1, ta, tb, s)
         b0, b1 = core.V3CoreLib.close_position(pool, info, pl, s)
         if pl != L or Decimal(p0) != Decimal(used0) or Decimal(p1) != Decimal(used1):
             ctx.violate("new_position", "new_position disagrees with get_liquidity/get_amounts", rep)
         if Decimal(b0) != Decimal(p0) or Decimal(b1) != Decimal(p1):
             ctx.violate("roundtrip", f"closing at the deposit price returns ({b0},{b1}) not the deposited ({p0},{p1})", rep)
-    except ZeroDivisionError:
-        pass
+    except Exception as e:  # noqa: BLE001
+        ctx.violate(f"raises.{type(e).__name__}", f"get_amounts / new_position / close_position raised {type(e).__name__} where get_liquidity answered {L}", rep)
 
 
 def run(ctx: Ctx):
@@ -163,12 +260,14 @@ def run(ctx: Ctx):
     from demeter.uniswap import UniV3Pool
     from demeter import TokenInfo
 
-    g = lm.get_sqrt_ratio_at_tick
+    U.ref_selfcheck()
+    g = U.ref_sqrt_ratio_at_tick
     n = ctx.scale(6000, 300000)
     reqs = []
-    for _ in range(n):
-        c = gen_case(ctx.rng, g)
+    for i in range(n):
+        c = gen_case(ctx.rng, g, "magnitude" if i % 8 == 7 else "random")
         check_case(ctx, lm, core, UniV3Pool, TokenInfo, c, reqs)
+    purity_stream(ctx, lm, core, UniV3Pool, TokenInfo, ctx.rng, ctx.scale(150, 5000))
     ctx.impl_traces = n
     if ctx.driver_ok:
         out = driver_batch([r[2] for r in reqs])
@@ -186,6 +285,24 @@ def replay(ctx: Ctx, case) -> bool:
     from demeter.uniswap import core
     from demeter.uniswap import UniV3Pool
     from demeter import TokenInfo
+    if case.get("kind") == "purity":
+        # the question and the (up to 12) questions asked before it, in the recorded order
+        sub = Ctx(ctx.prop, ctx.tier, ctx.seed, False)
+        import random
+        from demeter.uniswap._typing import PositionInfo
+        g = U.ref_sqrt_ratio_at_tick
+        ta, tb, s, L = case["ta"], case["tb"], int(case["s"]), int(case["L"])
+        info = PositionInfo(lower_tick=ta, upper_tick=tb)
+        ok = True
+        for via, da, db in case.get("asked_before", []) + [[case["via"], [case["d0"], case["d1"]], [case["d0"], case["d1"]]]]:
+            for d0, d1 in DEC_PAIRS + [tuple(da), tuple(db)]:
+                pool = UniV3Pool(TokenInfo("A", d0), TokenInfo("B", d1), 0.05, TokenInfo("A", d0))
+                got = core.V3CoreLib.get_token_amounts(pool, info, s, L) if case["via"] != "get_amounts" else lm.get_amounts(s, ta, tb, L, d0, d1)
+                e0, e1 = closed_form(s, g(ta), g(tb), L, d0, d1)
+                if not (rel_close(Fraction(got[0]), e0, TOL) and rel_close(Fraction(got[1]), e1, TOL)):
+                    print(f"   decimals {d0},{d1}: got ({got[0]}, {got[1]}), closed form ({float(e0):.12g}, {float(e1):.12g})")
+                    ok = False
+        return ok
     c = dict(case)
     c["s"] = int(c["s"])
     c["a0"], c["a1"] = Decimal(c["a0"]), Decimal(c["a1"])
